@@ -1,0 +1,37 @@
+//go:build verif
+
+package headers
+
+import (
+	"context"
+
+	"github.com/pkg/errors"
+)
+
+// This file is only built with the "verif" build tag. It exposes the existing unexported clean,
+// prune and load functions with a caller supplied prune depth to an external deterministic
+// simulation harness, so that pruning is reachable with short chains. It adds no logic of its own.
+
+// CleanWithPruneDepth runs the existing clean and then the existing prune with the specified depth.
+func (repo *Repository) CleanWithPruneDepth(ctx context.Context, depth int) error {
+	repo.Lock()
+	defer repo.Unlock()
+
+	if err := repo.clean(ctx); err != nil {
+		return err
+	}
+
+	if err := repo.prune(ctx, depth); err != nil {
+		return errors.Wrap(err, "prune")
+	}
+
+	return nil
+}
+
+// LoadWithPruneDepth runs the existing load with the specified prune depth.
+func (repo *Repository) LoadWithPruneDepth(ctx context.Context, depth int) error {
+	repo.Lock()
+	defer repo.Unlock()
+
+	return repo.load(ctx, depth)
+}
